@@ -428,4 +428,29 @@ def check_C17(pid, tier, seed, verdict):
                  "lines at CRLF); the comparison itself is made by HttpProxy!Accept"]
 
 
-CHECKS = {"C17": check_C17, "C16": check_C16, "C07": check_C07, "C12": check_C12, "C13": check_C13, "C10": check_C10, "C14": check_C14, "C09": check_C09, "C11": check_C11, "C01": check_C01, "C02": check_C02, "C03": check_C03, "C04": check_C04, "C05": check_C05}
+# ------------------------------------------------------------------------------------------- C06
+def check_C06(pid, tier, seed, verdict):
+    mcs = [mc_must_hold(pid, verdict, "MC_Auth.tla", "MC_Auth.cfg", workers=4)]
+    g = V.run_gen(pid, "MC_Auth.tla", "Gen_Auth.cfg")
+    mcs.append(g)
+    sp = os.path.join(V.workdir(pid), "gen.scn")
+    V.write_scenarios(sp, g["scenarios"])
+    run = V.run_harness(pid, "auth", seed, tier, sp)
+    res = V.run_trace(pid, "Trace_Auth.tla", "Trace_Auth.cfg", run["trace"])
+    verdict.add_trace_result("auth", res, run)
+    cnt = res["cnt"]
+    V.log(f"[{pid}] trace: {cnt['auth']} acceptor calls, {cnt['authnet']} TLS connections to the real server, bad={len(res['bad'])}")
+    cov = _cov(mcs, cnt["scn"], cnt["nontrivial"],
+               "scenario = one call of the real authenticate_client on an in-memory transport replaying one TLC-enumerated "
+               "behaviour of MC_Auth (deviation in the first / a middle / the last hash byte or none; padding class 0 / 1..255 / "
+               "256..65535; truncation point; fragmentation), concretised with single-bit, single-byte, related-password and "
+               "random deviations, boundaries jittered into the following field; plus all 256 single-bit deviations of the real "
+               "hash; plus raw TLS connections to the real server whose preamble is followed by Settings+SYN+destination of a "
+               "per-connection loopback listener (dial hook = 'treated as a session'); non-trivial = judged calls/connections",
+               V.sample_descrs(run["descr"]), True,
+               dict(behaviours_generated=len(g["scenarios"]), trace_events=res["lines"], event_counts=cnt))
+    return cov, ["the 2^256 hash space is sampled: every single-bit deviation, random single-byte deviations, hashes of related "
+                 "passwords", "absence of a reply from the real server is judged when it closes the connection or after 1.5 s"]
+
+
+CHECKS = {"C06": check_C06, "C17": check_C17, "C16": check_C16, "C07": check_C07, "C12": check_C12, "C13": check_C13, "C10": check_C10, "C14": check_C14, "C09": check_C09, "C11": check_C11, "C01": check_C01, "C02": check_C02, "C03": check_C03, "C04": check_C04, "C05": check_C05}
